@@ -1044,3 +1044,17 @@ CASES += [
 CASES += [
  dict(id='mut-clique-maximality-block-without-true-alternative', kind='fire', file=C, old='            if edges_complement.is_empty() {\n                "  true".to_string()', new='            if false {\n                "  true".to_string()', expect={'C16': 'empty constraint block'}, control=False),
 ]
+CASES += [
+ dict(id='mut-extract-vars-skips-first-token', kind='fire', file=P, old='''        tokens
+            .iter()
+            .filter_map(''', new='''        tokens
+            .iter()
+            .skip(1)
+            .filter_map(''', expect={'C09': 'whole sequences', 'C11': 'whole sequences'}, control=False),
+ dict(id='mut-dot-edges-drop-first-of-right', kind='fire', file=IO, old='.chain(r_edges.iter())', new='.chain(r_edges.iter().skip(1))', expect={'C14': 'whole sequences'}, control=False),
+ dict(id='mut-node-list-drops-a-node', kind='fire', file=B, old='.chain(r_nodes.iter())', new='.chain(r_nodes.iter().skip(1))', expect={'C13': 'whole sequences'}, control=False),
+ dict(id='mut-ordering-export-drops-first', kind='fire', file=M, old='''        let ordered_variable_names = ordered_variables
+            .iter()''', new='''        let ordered_variable_names = ordered_variables
+            .iter()
+            .skip(1)''', expect={'C09': 'lists every variable'}, control=False),
+]
